@@ -1,11 +1,56 @@
+import glob
+import json
+import os
+import subprocess
+
+import vlib
 from registry import reg, Check
 
-reg(Check(
+
+class C18Check(Check):
+    """Adds a pass under the Go race detector: the model takes the critical sections of
+    p.mu / c.mu as atomic; a data race reported inside the client packages while Close
+    races Subscribe means they are not.  Reported as one extra case whose recording is
+    [ERace] (never shown by the model => correspondence break, tag 1)."""
+
+    def run_harness(self, binary, outdir, seed, tier, replay=None):
+        ok, out = super().run_harness(binary, outdir, seed, tier, replay)
+        if not ok or replay:
+            return ok, out
+        rb, blog = vlib.go_build(self.harness, race=True)
+        if rb is None:
+            return False, "race build failed:\n" + blog[-2000:]
+        rdir = os.path.join(outdir, "race")
+        os.makedirs(rdir, exist_ok=True)
+        env = dict(os.environ, VERIF_REPO=vlib.REPO, VERIF_ROOT=vlib.ROOT, VERIF_CORPUS="",
+                   GORACE="log_path=%s halt_on_error=0" % os.path.join(rdir, "racelog"))
+        try:
+            subprocess.run([rb, "-seed", str(seed), "-tier", "race", "-out", rdir], cwd=rdir, env=env,
+                           stdout=subprocess.PIPE, stderr=subprocess.STDOUT, timeout=300)
+        except subprocess.TimeoutExpired:
+            return False, "race pass timed out"
+        text = ""
+        for f in sorted(glob.glob(os.path.join(rdir, "racelog.*"))):
+            text += open(f, errors="replace").read()
+        reports = [r for r in text.split("==================") if "DATA RACE" in r and "gnmi/client" in r]
+        if reports:
+            open(os.path.join(outdir, "cases_9000.v"), "w").write(
+                "From Gnmi Require Import Base.Prelude Client.ClientModel Client.ClientCheck.\n"
+                "Definition cases : list case := [(true, true, [], [ERace])].\n"
+                "Definition R := Eval vm_compute in check_all cases.\nPrint R.\n")
+            json.dump([dict(family="race-detector", kind="rebase", attempts=[], ops=[],
+                            trace=[dict(t="race")], reports=len(reports), report=reports[0][:3000])],
+                      open(os.path.join(outdir, "cases_9000.json"), "w"))
+        return ok, out
+
+
+reg(C18Check(
     "C18", "c18",
     coq_targets=["Client/ClientCheck.vo", "Client/ClientProofs.vo", "Client/ClientProofs2.vo", "Client/ClientProofs3.vo", "Client/ClientProofs4.vo", "Client/ClientProofs5.vo", "Props/C18.vo"],
     assumptions=[
         "transport (Impl) hypothesis: the constructor and Impl.Subscribe fail on an already cancelled context and return once it is cancelled; a Recv that blocks returns an error once its context is cancelled or the Impl is closed; every other transport call and every application callback returns (for the real client/gnmi constructor this is checked by the dial family: silent / refusing / closing TCP targets, Close and cancel during the dial, watchdog)",
-        "any number of Subscribe and Close calls on one client, in any order: Subscribe calls are sequential among themselves, Close calls sequential among themselves, a Close may overlap a Subscribe at any point (ReconnectClient); on a bare Base/Cache client, after the first Subscribe call, a new call starts only when no other call is in progress (a Close that overlaps the connect phase of a second Subscribe returns nil without effect on it: see docs); single registered client type; one caller context shared by the Subscribe calls",
+        "any number of Subscribe and Close calls on one client, in any order: Subscribe calls are sequential among themselves, Close calls sequential among themselves, a Close may overlap a Subscribe at any point (ReconnectClient and bare clients); on a bare Base/Cache client a new Subscribe is not started while a Close call is still in progress; single registered client type; one caller context shared by the Subscribe calls; the NotificationHandler returns nil",
+        "the critical sections of p.mu / c.mu are atomic steps of the model; this is checked dynamically only (Go race detector pass on Close racing Subscribe)",
         "backoff durations are abstracted to 'some positive delay' (cenkalti/backoff is not modelled); real-time bounds are measured, not proved",
     ],
     modelled=["client/client.go: BaseClient.Subscribe, run, Close; client/reconnect.go: ReconnectClient.Subscribe, initDone, Close; client/cache.go: CacheClient.Subscribe/defaultHandler (transparent); client/fake/fake.go Recv (Connected, one notification per call, Sync + ErrStopReading at the end)"],
